@@ -193,6 +193,17 @@ def run(ctx):
                 ctx.bad('C01.2-field-order', inst, 'fields are written in order %s, the decoder reads them as %s' % (order, want), ctx.where(P.B(fn)),
                         key='PROV:%s:field-order' % fn)
 
+    # ---------------- atoms keep their text through interning ---------------------------------------------------------
+    ctx.rule('C01.5-atom-interning', 'atoms are constructed and decoded through Atom::new, whose interning tables agree entry by entry (same atoms after a round trip)', floor=1)
+    from ..etf import check_atom_tables
+    check_atom_tables(ctx, 'C01.5-atom-interning')
+
+    # ---------------- the order that keys decoded maps ------------------------------------------------------------------
+    ctx.rule('C01.6-map-key-order', 'decoding collects map entries into a BTreeMap keyed by the term type (both decoders): "same key/value pairs" after a round trip needs an order under which two different keys '
+             'never compare Equal - the comparator rules of C11/C12 re-run here', floor=60)
+    from ..order import map_key_order_rules
+    map_key_order_rules(ctx, 'C01.6-map-key-order')
+
     # ---------------- clause 3: sizes are errors, not truncations --------------------------------------
     ctx.rule('C01.3-no-truncation', 'every length/arity/count written with a narrower width in the encoder is range-guarded or try_from-ed', floor=8)
     for fn in sorted(p for p in ctx.F.bodies if p.startswith(ENC) and ctx.F.bodies[p]['kind'] in ('Fn', 'Closure')):
